@@ -60,7 +60,7 @@ theorem simF_sym {m : Nat → Nat} {s : St} {rs : Ref.St} {env : Nat} {pre post 
     exact ⟨s.jmp (s.pc + 1) (some v :: s.data), m, v,
       (Reach.step h.head (fun f => by rw [exec_envToStack, hv])).toX,
       ⟨rfl, by simp, rfl⟩, rfl, hrel.jmp _ _, MExt.refl s m, RExt.refl rs, FrameF.jmp _ _ _,
-      VOk.ext (hrel.vok id x v hx (lexLookup_sound hv)) (Frame.jmp _ _ _) (RExt.refl rs) (MExt.refl s m)⟩
+      VOk.ext ((hrel.vok id x v (lexLookup_sound hv)).ok hx) (Frame.jmp _ _ _) (RExt.refl rs) (MExt.refl s m)⟩
 
 /-! ## `def`, `set` -/
 
@@ -426,7 +426,7 @@ theorem evalCallExpr_sym_simF (x : String) (hx : okSym x = true) (n : Nat) {m : 
       rw [hv] at hl
       rw [← hl]
       refine ⟨1, s, m, v, fun fuel hf => ?_, rfl, rfl, rfl, hrel, MExt.refl s m, RExt.refl rs, FrameF.refl s,
-        hrel.vok i x v hx (lexLookup_sound hv)⟩
+        (hrel.vok i x v (lexLookup_sound hv)).ok hx⟩
       obtain ⟨f, rfl⟩ : ∃ f, fuel = f + 1 := ⟨fuel - 1, by omega⟩
       rw [hrun, hv]
 
@@ -729,7 +729,7 @@ theorem fclaimU_succ {n : Nat} (hB : FClaimB n) : FClaimU (n + 1) := by
     rw [List.map_fst_zip (by simp; omega)]; exact hnd
   have relB : RelF m s₄ rsB rs₁.frames.length := by
     refine hrel.enter hg s₄ rsB t _ _ hsc4 hlin4 hfns4 hcur4 (by subst hs4; subst hs3; rfl) (by subst hs4; subst hs3; rfl)
-      hfrB hclB hhpB htrB htclo (fun y => ?_) (fun y v _ hv => ?_) (fun h hh => ?_)
+      hfrB hclB hhpB htrB htclo (fun y => ?_) (fun y v hv => ?_) (fun h hh => ?_)
     · rw [lookup_bindsVars, lookup_bindsVars, List.reverse_reverse, lookup_reverse_of_nodup _ hndz', lookup_zip_map]
       cases (c.ps.zip vs).lookup y <;> rfl
     · rw [lookup_bindsVars, List.reverse_reverse] at hv
@@ -1163,7 +1163,7 @@ theorem simF_call {k : Nat} (hA : FClaimA (k + 1)) (hU : FClaimU (k + 1)) {h : S
     rw [hl] at hlook
     rw [← hlook]
     simp only [Option.map_some, trp2]
-    have hv : VOk m s rs fv := hrel.vok i h fv hh (lexLookup_sound hl)
+    have hv : VOk m s rs fv := (hrel.vok i h fv (lexLookup_sound hl)).ok hh
     cases fv with
     | fn vid => exact simF_call_fn hA hU hargs hrel hseg hl hv.fn
     | builtin name => exact simF_call_builtin hA hv.builtin hargs hrel hseg hl
